@@ -60,7 +60,7 @@ def expect(t, n, outcome):
             v = outcome[3:-1] if (t["has_err"] and is_ok) else outcome
             events.append({"field": "return", "v": disp(v) if rc["mode"] == "display" else v, "level": rc["level"]})
     return {"name": t["name"], "level": t["level"], "target": t["target"], "parent": t["parent"], "follows": t["follows"],
-            "fields": [{"name": k, "v": sub(v)} for k, v in sorted(t["fields"].items())], "events": events}
+            "fields": [{"name": k, "v": sub(v), "m": t.get("meths", {}).get(k, "any")} for k, v in sorted(t["fields"].items())], "events": events}
 
 
 def canon_drops(log):
